@@ -305,7 +305,19 @@ impl<'t, 'a> FnGen<'t, 'a> {
         let g = self.globals[0].clone();
         let f = self.funcs[self.t.pick(self.funcs.len())].clone();
         let ok_args: Vec<Expr> = (0..f.params.len()).map(|_| num(1.0)).collect();
-        let (tag, stmts): (&'static str, Vec<Stmt>) = match self.t.pick(18) {
+        let (tag, stmts): (&'static str, Vec<Stmt>) = match self.t.pick(19) {
+            18 => {
+                // a repeated parameter name is an error when the function is called, not when it is defined
+                let (dup, p) = (self.fresh(), self.fresh());
+                (
+                    "duplicate_parameter",
+                    vec![
+                        Stmt::Function { name: dup.clone(), params: vec![p.clone(), p.clone()], body: vec![Stmt::Return { value: var(&p) }] },
+                        say(strlit("defined")),
+                        say(call(&dup, vec![num(1.0), num(2.0)])),
+                    ],
+                )
+            }
             12 => {
                 // an `if` that is not taken and has no else still ends a block: no pronoun afterwards
                 ("pronoun_after_untaken_if", vec![Stmt::If { cond: bin(BinOp::Eq, var(&g), num(12345.0)), then: vec![say(var(&g))], els: None }, say(it())])
